@@ -3,6 +3,7 @@ package props
 import (
 	"fmt"
 	"go/token"
+	"go/types"
 	"sort"
 	"strings"
 
@@ -165,6 +166,34 @@ func c19Rules(p *core.Prog, r *core.Run) {
 		}
 		before := urlHostStore != nil && !core.MayFollow(urlHostStore, st)
 		r.Check("C19.AUTH", "req.Host", cloneURLHost(v) && empty && before, p.InstrPos(st), "the Host/:authority sent is the original URL.Host (%v), set only when the caller gave none (%v), before URL.Host is replaced by the pool key (%v)", cloneURLHost(v), empty, before)
+		// ... and whenever the caller gave none: the emptiness test lies on every
+		// way to the pool-key rewrite and nothing else decides about the store
+		if empty && urlHostStore != nil {
+			isEmptyTest := func(f core.Fact) bool {
+				return (f.Op == "==" || f.Op == "!=" || f.Op == ">") && f.R != nil && f.R.Name == "0" && f.L.Op == "call" && f.L.Name == "len" && f.L.Args[0].Op == "field" && f.L.Args[0].Name == "Host" && isClone(f.L.Args[0].Args[0])
+			}
+			var test *ssa.BasicBlock
+			for b := st.Block(); b != nil && test == nil; b = b.Idom() {
+				if iff, ok := b.Instrs[len(b.Instrs)-1].(*ssa.If); ok && isEmptyTest(p.FactOf(core.Guard{Cond: iff.Cond, Pol: true, If: iff})) {
+					test = b
+				}
+			}
+			always := false
+			extra := ""
+			if test != nil {
+				always = test.Dominates(urlHostStore.Block())
+				base := map[string]bool{}
+				for _, f := range p.Facts(test) {
+					base[f.String()] = true
+				}
+				for _, f := range p.Facts(st.Block()) {
+					if !base[f.String()] && !isEmptyTest(f) {
+						extra = f.String()
+					}
+				}
+			}
+			r.Check("C19.AUTH", "req.Host:always", always && extra == "", p.InstrPos(st), "the emptiness test of req.Host lies on every way to the pool-key rewrite (%v) and is the only condition of the store (another one: %s)", always, extra)
+		}
 	}
 	r.Check("C19.AUTH", "req.Host:stores", nAuth == 1, p.Pos(rt.Pos()), "one store to the clone's Host (found %d)", nAuth)
 	for _, s := range callSites(p, []*ssa.Function{rt}, `net\.SplitHostPort`) {
@@ -613,13 +642,21 @@ func c19H3(p *core.Prog, r *core.Run, rt *ssa.Function) {
 					continue
 				}
 				for _, bnd := range mc.Bindings {
-					al, isAl := bnd.(*ssa.Alloc)
-					if !isAl {
-						continue
+					var vals []ssa.Value
+					if al, isAl := bnd.(*ssa.Alloc); isAl {
+						stores, _ := p.CellDefs(al)
+						for _, cs := range stores {
+							vals = append(vals, cs.Val)
+						}
+					} else if stt, isStruct := bnd.Type().Underlying().(*types.Struct); isStruct {
+						// the settings as a struct captured by value (the receiver of a
+						// method value used as the predicate)
+						for i := 0; i < stt.NumFields(); i++ {
+							vals = append(vals, core.StructFieldValues(bnd, i)...)
+						}
 					}
-					stores, _ := p.CellDefs(al)
-					for _, cs := range stores {
-						switch v := strip(pick(strip(cs.Val))).(type) {
+					for _, csVal := range vals {
+						switch v := strip(pick(strip(csVal))).(type) {
 						case *ssa.Const:
 							if v.Value != nil && (v.Value.ExactString() == "true" || v.Value.ExactString() == "false") {
 								must = v.Value.ExactString()
@@ -753,6 +790,34 @@ func c19H3(p *core.Prog, r *core.Run, rt *ssa.Function) {
 		_, isCell := p.IsCellLoad(f.G.Cond)
 		return isCell && f.G.Cond.Type().String() == "bool"
 	}
+	// (a flag of the settings struct the predicate captured by value)
+	isCapturedFlag := func(f core.Fact) bool {
+		if f.G.Cond == nil || f.G.Cond.Type().String() != "bool" {
+			return false
+		}
+		v := f.G.Cond
+		for i := 0; i < 4; i++ {
+			switch x := v.(type) {
+			case *ssa.Field:
+				v = x.X
+				continue
+			case *ssa.UnOp:
+				if fa, ok := x.X.(*ssa.FieldAddr); ok && x.Op == token.MUL {
+					// the receiver spilled into a local of the (inlined) method
+					if al, ok := fa.X.(*ssa.Alloc); ok {
+						stores, calls := p.CellDefs(al)
+						if len(stores) == 1 && len(calls) == 0 {
+							v = stores[0].Val
+							continue
+						}
+					}
+				}
+			}
+			break
+		}
+		fv, ok := v.(*ssa.FreeVar)
+		return ok && fv.Parent() == filt
+	}
 	for i, ret := range core.Returns(filt) {
 		if p.X(ret.Results[0]).Name != "false" {
 			continue // "delete" is always safe
@@ -765,7 +830,7 @@ func c19H3(p *core.Prog, r *core.Run, rt *ssa.Function) {
 			if f.Op == "!=" && f.R != nil && f.R.Name == "0" && f.L.Op == "field" && f.L.Name == "Priority" {
 				svc = true
 			}
-			if f.Op == "false" && (f.L.Op == "param" || isBoolCell(f)) {
+			if f.Op == "false" && (f.L.Op == "param" || isBoolCell(f) || isCapturedFlag(f)) {
 				notMust = true
 			}
 			if f.Op == "==" && f.R != nil && f.R.Name == "0" && f.L.Op == "call" && f.L.Name == "len" && f.L.Args[0].Op == "field" && f.L.Args[0].Name == "ALPN" {
